@@ -91,9 +91,9 @@ P["C16"] = dict(level="exploration", design="DESIGN.md 7.3", assumptions=SYNC + 
  text="Threshold Schnorr (New-DKG based) and threshold DSS runs between party tasks with up to t faulty signers, messages 0, 1, q-1, q and random, before and after a share refresh: whenever Sign returns true at an honest party the signature must satisfy the textbook Schnorr resp. DSA equation evaluated by harness code under the jointly generated key, all honest parties must hold the same signature, and the library's own verifier must accept it and refuse the altered and out-of-range copies.",
  note="trusted: harness evaluation of the textbook equations (libgmp) with the library's hash function")
 P["C11"] = dict(level="exploration", design="DESIGN.md 7.10", assumptions=["scope: (i) persisted protocol state of PedersenVSS, New-DKG, Canetti et al. DKG and DSS at the phase boundaries reached in simulated multi-party histories (after Share / Generate / Refresh, incl. states with disqualified parties and publicly adjusted shares): PublishState -> destroy -> stream constructor -> PublishState must give the identical text and the run continues on the restored object; (ii) every card, card secret, stack, stack secret, group and shuffle-argument parameter set produced in the table simulations is exported, imported into a fresh object and exported again",
-   "not decided: crafted boundary integers (zero, negative, maximal length), dimensions not reached by the simulations, import into used objects - pure input quantification"],
- quick=[leg("dkg","plain",700,16,8,600,None,["--restartall","1"]), leg("cards","plain",3000,16,8,120)],
- thorough=[leg("dkg","plain",80000,16,32,600,900,["--restartall","1"]), leg("cards","plain",300000,16,64,120,600)],
+   "cards and card secrets of the quadratic-residuosity encoding are also re-imported into used objects of other dimensions (players 1..6, type bits 1..8); a stand-alone Joint-RVSS with sharing degree t' != t is restarted as well", "not decided: crafted boundary integers (zero, negative, maximal length), dimensions not reached by the simulations - pure input quantification"],
+ quick=[leg("dkg","plain",700,16,8,600,None,["--restartall","1"]), leg("cards","plain",3000,16,8,120), leg("qrcards","plain",3000,16,8,120)],
+ thorough=[leg("dkg","plain",80000,16,32,600,900,["--restartall","1"]), leg("cards","plain",300000,16,64,120,600), leg("qrcards","plain",300000,16,64,120,300)],
  text="Restart monitor inside the multi-party simulations (crash = destroy the protocol object at a phase boundary, only the PublishState text survives, restart = stream constructor; the restored party continues the protocol, e.g. signs with the restored key, and the C15/C16 oracles judge the outcome) plus a wire monitor in the table simulations (every exported object is re-imported into a fresh object, compared with == where the type has it, and re-exported).",
  note="trusted: text comparison; the restored object's behaviour is judged by the C15/C16 oracles of the same run")
 P["C17"] = dict(level="exploration", design="DESIGN.md 7.4", assumptions=["two-party protocol between two tasks; multi-party protocol over the real reliable broadcast with SimUnicast underneath, synchrony as for C15"],
